@@ -28,6 +28,63 @@ def make_test(engine, program, sig):
     return fails, calls
 
 
+def shrink_specs(steps, fails, calls, budget):
+    """Operand simplification: for every constructed array try, in turn,
+    fewer stored sectors, block extents of 1, and tables without unused
+    charges; keep a change only if the same violation persists."""
+    def specs_of(st):
+        out = []
+        for i, s in enumerate(st):
+            a = s.get("a")
+            if isinstance(a, dict) and isinstance(a.get("spec"), dict) and "indices" in a["spec"]:
+                out.append((i, None))
+            if s.get("op") == "@net":
+                for k, t in enumerate(s["net"]["tensors"]):
+                    if "spec" in t:
+                        out.append((i, k))
+        return out
+
+    def get(st, ref):
+        i, k = ref
+        return st[i]["a"]["spec"] if k is None else st[i]["net"]["tensors"][k]["spec"]
+
+    for ref in specs_of(steps):
+        if calls[0] >= budget:
+            break
+        # 1. drop stored sectors one at a time
+        j = 0
+        while calls[0] < budget:
+            sp = get(steps, ref)
+            if j >= len(sp["sectors"]) or len(sp["sectors"]) <= 1:
+                break
+            cand = copy.deepcopy(steps)
+            get(cand, ref)["sectors"].pop(j)
+            if fails(cand):
+                steps = cand
+            else:
+                j += 1
+        # 2. all block extents -> 1 (only for free-standing arrays: bonds of a
+        #    network must stay conjugate to each other)
+        if ref[1] is None and calls[0] < budget:
+            cand = copy.deepcopy(steps)
+            sp = get(cand, ref)
+            changed = False
+            for ix in sp["indices"]:
+                for p in ix["cm"]:
+                    if p[1] != 1:
+                        p[1] = 1
+                        changed = True
+            if changed and fails(cand):
+                steps = cand
+        # 3. integer data
+        if calls[0] < budget and get(steps, ref).get("dist") != "int":
+            cand = copy.deepcopy(steps)
+            get(cand, ref)["dist"] = "int"
+            if fails(cand):
+                steps = cand
+    return steps
+
+
 def minimize(engine, program, violation, budget=400, extra_passes=None):
     sig = _sig(violation)
     original = program
@@ -89,6 +146,7 @@ def minimize(engine, program, violation, budget=400, extra_passes=None):
                 cand[i]["a"].pop(key)
                 if fails(cand):
                     steps = cand
+    steps = shrink_specs(steps, fails, calls, budget + 120)
     if extra_passes:
         for p in extra_passes:
             steps = p(steps, fails, calls, budget)
